@@ -875,6 +875,107 @@ fn forged_state_step(
 	}
 }
 
+/// Whole-state validation at scale: a chain with more than 1000 unspent outputs (range proofs are verified in
+/// batches of 1000 over the unspent outputs, kernels in batches of 5000) in which ONE early block carries two swapped
+/// range proofs. The forged block is installed behind the pipeline, every later block (built on it) goes through the
+/// pipeline — which judges each block on its own — and the node ends in a state whose first full proof batch holds
+/// two invalid proofs while the tail batch is clean. `Chain::validate(false)` must refuse it; the same chain without
+/// the swap must pass (control for the harness).
+fn deep_state_phase(run: &Run) {
+	use grin_chain::txhashset;
+	use grin_core::core::committed::Committed;
+	use vcommon::scenarios::build_multi_chunk_trunk_ex;
+	init_thread(true);
+	let t0 = std::time::Instant::now();
+	let sc = Scratch::new("c01deep");
+	let forged_at = 6u64;
+	for (name, swap) in [("swapped_range_proofs_in_the_first_full_batch", Some(forged_at)), ("honest_control", None)] {
+		let mut h = build_multi_chunk_trunk_ex(run.seed ^ 0xDEE1, 122, 9, swap);
+		let opts: Options = h.opts();
+		let dir = sc.sub(name);
+		let chain = match open_chain(&dir, &h.genesis) {
+			Ok(c) => c,
+			Err(e) => {
+				run.inconclusive(&format!("deep state: {}", e));
+				return;
+			}
+		};
+		let replay = json!({"phase": "deep_state", "case": name, "blocks": h.blocks.len(), "forged_block_height": swap});
+		let blocks: Vec<Block> = h.blocks.iter().map(|b| b.block.clone()).collect();
+		let mut ok = true;
+		for b in &blocks {
+			let forged = swap == Some(b.header.height);
+			let r = chain.process_block(b.clone(), opts);
+			if forged {
+				if r.is_ok() {
+					run.violation(
+						"C01;chain;value_creating_block_accepted;deep_state_swapped_range_proofs",
+						&format!("block {} at height {} with two swapped range proofs accepted by process_block", b.hash(), b.header.height),
+						replay.clone(),
+					);
+					ok = false;
+					break;
+				}
+				// install it behind the pipeline, with the running sums the pipeline would have stored
+				let installed: Result<(), String> = (|| {
+					chain.process_block_header(&b.header, opts).map_err(|e| format!("header: {:?}", e))?;
+					let store = chain.store();
+					let header_pmmr = chain.header_pmmr();
+					let txhashset = chain.txhashset();
+					let mut header_pmmr = header_pmmr.write();
+					let mut txhashset = txhashset.write();
+					let mut batch = store.batch().map_err(|e| format!("{:?}", e))?;
+					let prev_sums = batch.get_block_sums(&b.header.prev_hash).map_err(|e| format!("{:?}", e))?;
+					let (utxo_sum, kernel_sum) = (prev_sums, b as &dyn Committed)
+						.verify_kernel_sums(b.header.overage(), b.header.total_kernel_offset())
+						.map_err(|e| format!("sums: {:?}", e))?;
+					txhashset::extending(&mut header_pmmr, &mut txhashset, &mut batch, |ext, batch| {
+						ext.extension.apply_block(b, ext.header_extension, batch)
+					})
+					.map_err(|e| format!("apply_block: {:?}", e))?;
+					batch.save_block(b).map_err(|e| format!("{:?}", e))?;
+					batch
+						.save_block_sums(&b.hash(), grin_core::core::block_sums::BlockSums { utxo_sum, kernel_sum })
+						.map_err(|e| format!("{:?}", e))?;
+					batch.save_body_head(&grin_chain::Tip::from_header(&b.header)).map_err(|e| format!("{:?}", e))?;
+					batch.commit().map_err(|e| format!("{:?}", e))?;
+					Ok(())
+				})();
+				if let Err(e) = installed {
+					run.inconclusive(&format!("deep state: forged block could not be installed: {}", e));
+					ok = false;
+					break;
+				}
+			} else if let Err(e) = r {
+				run.inconclusive(&format!("deep state ({}): block at height {} refused: {:?}", name, b.header.height, e));
+				ok = false;
+				break;
+			}
+		}
+		if !ok {
+			continue;
+		}
+		let tip = blocks.last().unwrap().hash();
+		let unspent = h.state(&tip).utxo.len() as u64;
+		run.count(&format!("deep_state.{}.unspent_outputs", name), unspent);
+		let r = chain.validate(false);
+		run.eval(&format!("deep_state;{}", name), true);
+		run.count(&format!("deep_state.{}.full_validations", name), 1);
+		match (swap.is_some(), r) {
+			(true, Ok(())) => run.violation(
+				"C01;state;forged_state_passes_full_validation;swapped_range_proofs_in_the_first_full_batch",
+				&format!("a state with {} unspent outputs in which the block at height {} carries two swapped range proofs passes Chain::validate(false)", unspent, forged_at),
+				replay.clone(),
+			),
+			(false, Err(e)) => run.inconclusive(&format!("deep state: the honest control chain fails full validation: {:?}", e)),
+			_ => {}
+		}
+		drop(chain);
+		let _ = std::fs::remove_dir_all(&dir);
+	}
+	run.count("deep_state.seconds", t0.elapsed().as_secs());
+}
+
 fn main() {
 	let run = Run::from_env("C01", "exploration");
 	init_globals(true);
@@ -903,7 +1004,25 @@ fn main() {
 		 Every case counts as non-trivial; distinct by (shape, operator).",
 	);
 	run.assume("secp256k1-zkp (range proofs, signatures, point addition) is the trusted base; a forged proof that verifies is out of reach");
-	run.spawn_workers(16, &[], run.tier.pick(400, 2400));
+	std::thread::scope(|s| {
+		let deep = s.spawn(|| {
+			if let Err(p) = vcommon::monitor::catch(|| deep_state_phase(&run)) {
+				run.inconclusive(&format!("deep state phase panicked: {} @ {}", p.message, p.location));
+			}
+		});
+		run.spawn_workers(16, &[], run.tier.pick(400, 2400));
+		let _ = deep.join();
+	});
+	run.require(
+		"deep state (more than 1000 unspent outputs, swapped range proofs in the first full batch): full validations",
+		run.counter("deep_state.swapped_range_proofs_in_the_first_full_batch.full_validations"),
+		1,
+	);
+	run.require(
+		"deep state: unspent outputs (proof batches hold 1000)",
+		run.counter("deep_state.swapped_range_proofs_in_the_first_full_batch.unspent_outputs"),
+		1001,
+	);
 	run.require("tx_valid_checked", run.counter("tx_valid_checked"), run.tier.pick(60, 600));
 	for op in [
 		"output_amount_plus", "output_amount_minus", "fee_field_changed", "offset_changed", "kernel_duplicated", "kernel_foreign",
